@@ -16,20 +16,22 @@ Theorem C19_clients_served : forall k tr,
   let s := run k tr in
   v_started s = true -> v_stopreq s = false ->
   v_conns (step s LConnect) = v_conns s ++ [{| k_client_open := true; k_session := true;
-                                               k_replies := 1 |}] /\
+                                               k_replies := 1; k_hello := true |}] /\
   forall c x, nth_error (v_conns s) c = Some x -> k_client_open x = true -> k_session x = true ->
+    k_hello x = true ->
     nth_error (v_conns (step s (LSend c))) c
-    = Some {| k_client_open := true; k_session := true; k_replies := S (k_replies x) |} /\
+    = Some {| k_client_open := true; k_session := true; k_replies := S (k_replies x);
+              k_hello := true |} /\
     forall c', c' <> c -> nth_error (v_conns (step s (LSend c))) c' = nth_error (v_conns s) c'.
 Proof.
   intros k tr s Hst Hns.
   destruct (inv_serving _ (Inv_run k tr) Hst Hns) as [Hl Hd]. fold s in Hl, Hd.
   split.
   - cbn [step]. rewrite Hl. reflexivity.
-  - intros c x Hx Ho Hse. cbn [step]. rewrite Hx, Ho, Hse. cbn [andb].
+  - intros c x Hx Ho Hse Hh. cbn [step]. rewrite Hx, Ho, Hse, Hh. cbn [andb].
     destruct (settle_fields (set_conns s (upd (v_conns s) c
                 {| k_client_open := true; k_session := v_listening s;
-                   k_replies := S (k_replies x) |}))) as [_ [_ [Hc _]]].
+                   k_replies := S (k_replies x); k_hello := true |}))) as [_ [_ [Hc _]]].
     rewrite Hc. unfold set_conns. cbn [v_conns]. split.
     + rewrite nth_error_upd, Nat.eqb_refl, Hl.
       assert (Hlt : c < length (v_conns s)) by (apply nth_error_Some; congruence).
@@ -84,20 +86,23 @@ Proof.
   - apply (inv_sock_there _ I).
     assert (H : forall t u, v_kind (fold_left step t u) = v_kind u).
     { induction t as [|l t IH]; intros u; cbn [fold_left]; [reflexivity|]. rewrite IH.
-      destruct l as [| | |c|c|]; cbn [step].
+      destruct l as [| | | |c|c|c|]; cbn [step].
       - destruct (v_started u && negb (v_done u)); reflexivity.
       - destruct (v_listening u); reflexivity.
       - destruct (v_listening u); reflexivity.
+      - destruct (v_listening u); reflexivity.
       - destruct (nth_error (v_conns u) c) as [x|]; [|reflexivity].
-        destruct (k_client_open x && k_session x); [|reflexivity].
-        destruct (settle_fields (set_conns u (upd (v_conns u) c
-                   {| k_client_open := true; k_session := v_listening u;
-                      k_replies := S (k_replies x) |}))) as [Hk _]. exact Hk.
+        destruct (k_client_open x && k_session x && negb (k_hello x)); [|reflexivity].
+        match goal with |- v_kind (settle ?z) = _ => destruct (settle_fields z) as [Hk _] end.
+        exact Hk.
+      - destruct (nth_error (v_conns u) c) as [x|]; [|reflexivity].
+        destruct (k_client_open x && k_session x && k_hello x); [|reflexivity].
+        match goal with |- v_kind (settle ?z) = _ => destruct (settle_fields z) as [Hk _] end.
+        exact Hk.
       - destruct (nth_error (v_conns u) c) as [x|]; [|reflexivity].
         destruct (k_client_open x); [|reflexivity].
-        destruct (settle_fields (set_conns u (upd (v_conns u) c
-                   {| k_client_open := false; k_session := false;
-                      k_replies := k_replies x |}))) as [Hk _]. exact Hk.
+        match goal with |- v_kind (settle ?z) = _ => destruct (settle_fields z) as [Hk _] end.
+        exact Hk.
       - destruct (v_started u && negb (v_stopreq u)); [|reflexivity].
         match goal with |- v_kind (settle ?z) = _ => destruct (settle_fields z) as [Hk _] end.
         exact Hk. }
@@ -113,6 +118,35 @@ Example C19_example :
      (false, false, true); (false, false, true); (false, false, true); (false, true, false)].
 Proof. vm_compute. reflexivity. Qed.
 
+(** Sessions are independent while a handshake is pending: a client that has connected but not
+    yet sent its handshake line holds a waiting session; whatever that client does or does not do,
+    every other connection's record is untouched by its handshake, and the handshake itself is
+    answered with exactly one reply (after which the session lives iff the server still serves). *)
+Theorem C19_pending_handshake_is_local : forall k tr c x,
+  let s := run k tr in
+  nth_error (v_conns s) c = Some x -> k_client_open x = true -> k_session x = true ->
+  k_hello x = false ->
+  nth_error (v_conns (step s (LHello c))) c
+  = Some {| k_client_open := true; k_session := v_listening s; k_replies := S (k_replies x);
+            k_hello := true |} /\
+  (forall c', c' <> c -> nth_error (v_conns (step s (LHello c))) c' = nth_error (v_conns s) c') /\
+  (v_listening s = true ->
+   v_conns (step s LOpen) = v_conns s ++ [{| k_client_open := true; k_session := true;
+                                             k_replies := 0; k_hello := false |}] /\
+   v_conns (step s LConnect) = v_conns s ++ [{| k_client_open := true; k_session := true;
+                                                k_replies := 1; k_hello := true |}]).
+Proof.
+  intros k tr c x s Hx Ho Hse Hh. cbn [step]. rewrite Hx, Ho, Hse, Hh. cbn [andb negb].
+  match goal with |- context [settle ?z] => destruct (settle_fields z) as [_ [_ [Hc _]]] end.
+  rewrite Hc. unfold set_conns. cbn [v_conns]. split; [|split].
+  - rewrite nth_error_upd, Nat.eqb_refl.
+    assert (Hlt : c < length (v_conns s)) by (apply nth_error_Some; congruence).
+    apply Nat.ltb_lt in Hlt. rewrite Hlt. reflexivity.
+  - intros c' Hne. rewrite nth_error_upd.
+    destruct (Nat.eqb_spec c c'); [congruence|reflexivity].
+  - intros Hl. rewrite Hl. split; reflexivity.
+Qed.
+
 (** Restart: once the serving task has completed, serve_forever() on the same server object serves
     again (same address, a Unix server's socket file is back) and can be stopped again. *)
 Theorem C19_restart : forall k tr,
@@ -126,12 +160,17 @@ Proof.
   repeat split; auto. intros ->.
   assert (H : forall t u, v_kind (fold_left step t u) = v_kind u).
   { induction t as [|l t IH]; intros u; cbn [fold_left]; [reflexivity|]. rewrite IH.
-    destruct l as [| | |c|c|]; cbn [step].
+    destruct l as [| | | |c|c|c|]; cbn [step].
     - destruct (v_started u && negb (v_done u)); reflexivity.
     - destruct (v_listening u); reflexivity.
     - destruct (v_listening u); reflexivity.
+    - destruct (v_listening u); reflexivity.
     - destruct (nth_error (v_conns u) c) as [x|]; [|reflexivity].
-      destruct (k_client_open x && k_session x); [|reflexivity].
+      destruct (k_client_open x && k_session x && negb (k_hello x)); [|reflexivity].
+      match goal with |- v_kind (settle ?z) = _ => destruct (settle_fields z) as [Hk _] end.
+      exact Hk.
+    - destruct (nth_error (v_conns u) c) as [x|]; [|reflexivity].
+      destruct (k_client_open x && k_session x && k_hello x); [|reflexivity].
       match goal with |- v_kind (settle ?z) = _ => destruct (settle_fields z) as [Hk _] end.
       exact Hk.
     - destruct (nth_error (v_conns u) c) as [x|]; [|reflexivity].
@@ -158,3 +197,4 @@ Print Assumptions C19_disconnect_is_local.
 Print Assumptions C19_stop.
 Print Assumptions C19_socket_file.
 Print Assumptions C19_restart.
+Print Assumptions C19_pending_handshake_is_local.
